@@ -4,8 +4,6 @@ package pubsub
 // event queue, output collection, event-log digest, violations, probes.
 
 import (
-	_ "unsafe"
-	"os"
 	"container/heap"
 	"context"
 	"crypto/sha256"
@@ -13,10 +11,12 @@ import (
 	"encoding/hex"
 	"fmt"
 	"hash"
+	"os"
 	"sort"
 	"sync"
 	"testing/synctest"
 	"time"
+	_ "unsafe"
 
 	"github.com/libp2p/go-libp2p-pubsub/internal/verifrt"
 	"github.com/libp2p/go-libp2p-pubsub/internal/verifrt/simrand"
@@ -126,9 +126,9 @@ func (r *prng) rng(lo, hi int) int { // inclusive
 	}
 	return lo + r.intn(hi-lo+1)
 }
-func (r *prng) f() float64       { return float64(r.u64()>>11) / float64(1<<53) }
+func (r *prng) f() float64            { return float64(r.u64()>>11) / float64(1<<53) }
 func (r *prng) chance(p float64) bool { return r.f() < p }
-func (r *prng) pick(n int) int   { return r.intn(n) }
+func (r *prng) pick(n int) int        { return r.intn(n) }
 func (r *prng) perm(n int) []int {
 	p := make([]int, n)
 	for i := range p {
@@ -166,10 +166,10 @@ func (s *sim) hf(key string) float64 { return float64(s.hv(key)>>11) / float64(1
 // events
 
 type simEvent struct {
-	at  time.Duration
-	seq uint64
-	tag string
-	run func()
+	at     time.Duration
+	seq    uint64
+	tag    string
+	run    func()
 	writer bool // a parked stream writer continues (drained inside settle)
 }
 type evHeap []*simEvent
@@ -200,8 +200,8 @@ type sim struct {
 	epoch time.Time
 	wake  chan struct{}
 
-	evq   evHeap
-	evseq uint64
+	evq       evHeap
+	evseq     uint64
 	lastEvent *simEvent
 
 	steps    int
@@ -209,16 +209,16 @@ type sim struct {
 	dig      hash.Hash
 	logN     int
 
-	mu       sync.Mutex // protects everything below that SUT goroutines touch
-	dirty    []*pipe
-	openReqs []*openReq
-	sops     []streamOp
-	obs      []string // observations made by SUT-side callbacks since last collect (digest only)
-	gatesNew []*gate
-	calls    []*call
-	popWait  []*popWaiter
-	valWait  []*popWaiter // validation workers waiting for work (released when their queue holds something)
-	qnames   map[*rpcQueue]string
+	mu        sync.Mutex // protects everything below that SUT goroutines touch
+	dirty     []*pipe
+	openReqs  []*openReq
+	sops      []streamOp
+	obs       []string // observations made by SUT-side callbacks since last collect (digest only)
+	gatesNew  []*gate
+	calls     []*call
+	popWait   []*popWaiter
+	valWait   []*popWaiter // validation workers waiting for work (released when their queue holds something)
+	qnames    map[*rpcQueue]string
 	nameQueue func(q *rpcQueue) string
 
 	hosts    []*simHost
@@ -552,11 +552,11 @@ var debugState = os.Getenv("VERIF_DEBUG_STATE") != ""
 // scheduler-owned stream writers (verifPopTake hook)
 
 type popWaiter struct {
-	q    *rpcQueue // nil for the validated-message turnstile (name is preset)
-	val  *validation
-	ch   chan struct{}
-	name string
-	gone bool
+	q         *rpcQueue // nil for the validated-message turnstile (name is preset)
+	val       *validation
+	ch        chan struct{}
+	name      string
+	gone      bool
 	scheduled bool
 }
 
